@@ -143,6 +143,14 @@ package target
 // ---------------------------------------------------------------------------
 // C10 / C09: the gNMI target renders the change in the configured encoding and forwards all of it, once
 
+// nothing to update: no rendering at all, or the empty object the tree renders when no value is new or changed
+//@ func nothingToUpdate
+//@   props C09
+//@   modifies nothing
+//@   ensures nil_is_nothing: jsonData == nil ==> result
+//@   ensures empty_object_is_nothing: istype(jsonData, map[string]any) && len(dyn(jsonData, map[string]any)) == 0 ==> result
+//@   ensures anything_else_is_something: result ==> jsonData == nil || (istype(jsonData, map[string]any) && len(dyn(jsonData, map[string]any)) == 0)
+
 //@ func (*gnmiTarget).Set
 //@   props C10 C09
 //@   requires t == nil || (t.cfg != nil && t.cfg.GnmiOptions != nil && t.target != nil)
@@ -162,6 +170,10 @@ package target
 //@   ensures success_sends_once [C10]: r1 == nil ==> ntrace() > n0 && isev(emitted(ntrace() - 1), GnmiSet)
 //@   internal forwards_all_proto_updates [C10 C09]: t != nil && enc == "proto" && ntrace() > n0 && isev(emitted(ntrace() - 1), GnmiSet) ==>
 //@            evarg(emitted(ntrace() - 1), GnmiSet, 0) == len(callres(ToProtoUpdates, 0, 0))
+//@   internal nothing_to_update_sends_no_update [C09]: t != nil && ntrace() > n0 && isev(emitted(ntrace() - 1), GnmiSet) &&
+//@            ((called(nothingToUpdate, 0) && callres(nothingToUpdate, 0)) || (called(nothingToUpdate, 1) && callres(nothingToUpdate, 1))) ==> evarg(emitted(ntrace() - 1), GnmiSet, 0) == 0
+//@   internal rendering_is_what_is_tested [C09]: (called(nothingToUpdate, 0) ==> called(ToJson) && callarg(nothingToUpdate, 0, 0) == callres(ToJson, 0, 0)) &&
+//@            (called(nothingToUpdate, 1) ==> called(ToJsonIETF) && callarg(nothingToUpdate, 1, 0) == callres(ToJsonIETF, 0, 0))
 //@   internal forwards_all_deletes [C10 C09]: t != nil && (enc == "proto" || enc == "json" || enc == "json_ietf") && ntrace() > n0 && isev(emitted(ntrace() - 1), GnmiSet) ==>
 //@            evarg(emitted(ntrace() - 1), GnmiSet, 1) == len(deletes)
 //@   loop 0 invariant len(setReq.Delete) == $n && fresh(setReq.Delete)
